@@ -7,3 +7,6 @@ import VibeProof.Props.C04
 #print axioms VibeProof.C04.C04_buildHashPar
 #print axioms VibeProof.C04.C04_combine
 #print axioms VibeProof.C04.C04_parAggregate
+#print axioms VibeProof.C04.C04_parHashJoin
+#print axioms VibeProof.C04.C04_hashSemiPar
+#print axioms VibeProof.C04.C04_hashAntiPar
